@@ -37,7 +37,7 @@ def describe(rep):
     rep.rule = 'case = node-set pair or (grid sizes, order, periodicity, equidist_nested, dimension, data type); one or a few SMT queries (QF_LRA) over all data in the unit box'
     rep.assume('tables come from qmat / scipy BarycentricInterpolator (not symbolic): tolerance 1e-11 (time) / 1e-12 (space) on results for data in [-1,1]',
                'space grids: refinement ratio 2, coordinates i*dx taken as exact rationals')
-    rep.out_of_scope('FFT based transfers (np.fft cannot take symbolic data)', 'grid sizes > 17 (quick) / 33', 'node counts > 6', '3-D in the quick tier')
+    rep.out_of_scope('FFT transfers with refinement ratios other than 2', 'TransferParticles_NoCoarse', 'grid sizes > 17 (quick) / 33', 'node counts > 6', '3-D in the quick tier')
 
 
 def tasks(tier, seed):
@@ -76,6 +76,10 @@ def tasks(tier, seed):
                 for shifted in (False, True):
                     if k < nf:
                         T.append(('restr', nf, nc, k, periodic, shifted))
+    for nf, nc in (((8, 4), (16, 8)) if quick else ((8, 4), (16, 8), (32, 16), (12, 6))):
+        T.append(('ffttransfer', nf, nc, 1))
+    for nf, nc in (((8, 4),) if quick else ((8, 4), (16, 8))):
+        T.append(('ffttransfer', nf, nc, 2))
     T.append(('nocoarse',))
     return T
 
@@ -87,6 +91,8 @@ def run_task(rep, task):
         space_case(rep, *task[1:])
     elif task[0] == 'restr':
         restr_case(rep, *task[1:])
+    elif task[0] == 'ffttransfer':
+        fft_transfer_case(rep, *task[1:])
     elif task[0] == 'nocoarse':
         nocoarse_case(rep)
 
@@ -391,6 +397,96 @@ def restr_case(rep, nf, nc, k, periodic, shifted):
             rep.unreproduced(f'{name}/row{i}', dev)
     rep.extra['restr_rows_skipped_for_ties'] = rep.extra.get('restr_rows_skipped_for_ties', 0) + skipped
     rep.sample({'case': name, 'free': 'fine grid data in the unit box'}, limit=2)
+
+
+def fft_transfer_case(rep, nf, nc, dim):
+    """FFT based transfers: prolongation / restriction are linear, their matrices are read off the REAL classes by feeding unit vectors (numpy FFT runs
+    concretely); the solver decides over all coarse data that injection after prolongation returns the coarse data and that every band-limited
+    trigonometric polynomial (modes below the coarse Nyquist frequency, arbitrary coefficients) is reproduced on the fine grid"""
+    from pySDC.implementations.transfer_classes.TransferMesh_FFT import mesh_to_mesh_fft
+    from pySDC.implementations.transfer_classes.TransferMesh_FFT2D import mesh_to_mesh_fft2d
+
+    name = f'ffttransfer/{nf}-{nc}/dim{dim}'
+    fp, cp = GridProb(nf, True, dim, np.dtype('float64')), GridProb(nc, True, dim, np.dtype('float64'))
+    T = (mesh_to_mesh_fft if dim == 1 else mesh_to_mesh_fft2d)(fp, cp, {})
+    rep.func(type(T).restrict, type(T).prolong)
+    shape_c, shape_f = (nc,) * dim, (nf,) * dim
+    ncs, nfs = nc**dim, nf**dim
+
+    def unit(init, i, shape):
+        m = mesh(init, val=0.0)
+        m.flat[i] = 1.0
+        return m
+
+    Pm = np.array([np.asarray(T.prolong(unit(cp.init, i, shape_c))).ravel() for i in range(ncs)]).T
+    Rm = np.array([np.asarray(T.restrict(unit(fp.init, i, shape_f))).ravel() for i in range(nfs)]).T
+    tol = rv(Fraction(1, 10**10))
+
+    def mv(Mx, v):
+        return [sum((rv(Mx[i, j]) * v[j] for j in range(Mx.shape[1]) if Mx[i, j] != 0), rv(0)) for i in range(Mx.shape[0])]
+
+    # band-limited data: modes |k| < nc/2 per direction, arbitrary coefficients
+    ks = list(range(-(nc // 2) + 1, nc // 2))
+    modes = list(itertools.product(ks, repeat=dim))
+    coef = [(z3.Real(f'a{i}'), z3.Real(f'b{i}')) for i in range(len(modes))]
+
+    def values(n):
+        pts = list(itertools.product(range(n), repeat=dim))
+        out = []
+        for pt in pts:
+            t = rv(0)
+            for (a, b), kk in zip(coef, modes):
+                ph = 2 * np.pi * sum(k_ * x_ / n for k_, x_ in zip(kk, pt))
+                t = t + rv(float(np.cos(ph))) * a + rv(float(np.sin(ph))) * b
+            out.append(t)
+        return out
+
+    cvals, fvals = values(nc), values(nf)
+    allc = [v for ab in coef for v in ab]
+    # injection after prolongation returns the coarse data (band-limited data: the property speaks of such data; what happens to the coarse Nyquist
+    # mode, which the 1-D class moves to the fine Nyquist frequency, is not claimed)
+    back = mv(Rm, mv(Pm, cvals))
+    res, m = prove(z3.And([z3.And(a - b <= tol * len(modes), b - a <= tol * len(modes)) for a, b in zip(back, cvals)]), box(allc), name=f'{name}:injection-after-prolongation')
+    rep.ob(f'{name}:injection-after-prolongation', res)
+    if res == 'sat':
+        rep.replayed += 1
+        rep.violation(f'{PID}/fft-transfer/injection-after-prolongation/dim{dim}', f'{name}: restrict(prolong(g)) differs from g for band-limited g with coefficients {[float(model_value(m, v)) for v in allc]}',
+                      {'task': ['ffttransfer', nf, nc, dim]})
+    res, m = prove(z3.And([z3.And(a - b <= tol * len(modes), b - a <= tol * len(modes)) for a, b in zip(mv(Pm, cvals), fvals)]), box(allc), name=f'{name}:band-limited-data-reproduced')
+    rep.ob(f'{name}:band-limited-data-reproduced', res)
+    if res == 'sat':
+        rep.replayed += 1
+        cv = {str(v): float(model_value(m, v)) for v in allc}
+
+        def fvals_(n):
+            grid = np.stack(np.meshgrid(*[np.arange(n) / n] * dim, indexing='ij'), axis=-1)
+            out = np.zeros((n,) * dim)
+            for i, kk in enumerate(modes):
+                ph = 2 * np.pi * (grid @ np.array(kk))
+                out += cv[f'a{i}'] * np.cos(ph) + cv[f'b{i}'] * np.sin(ph)
+            return out
+
+        Gm = mesh(cp.init, val=0.0)
+        Gm[:] = fvals_(nc)
+        dev = float(np.abs(np.asarray(T.prolong(Gm)) - fvals_(nf)).max())
+        if dev > 1e-9:
+            rep.violation(f'{PID}/fft-transfer/band-limited/dim{dim}', f'{name}: band-limited data is not reproduced by the prolongation, deviation {dev:.3e}', {'task': ['ffttransfer', nf, nc, dim], 'coefficients': cv})
+        else:
+            rep.unreproduced(f'{name}:band-limited', dev)
+    # data type and component structure: multi-component meshes go through per component and keep their type
+    for lab, fn, src, ref in (('restrict', T.restrict, fp, Rm), ('prolong', T.prolong, cp, Pm)):
+        rng = np.random.RandomState(rep.seed + 11)
+        X = imex_mesh(src.init, val=0.0)
+        X.impl[:] = rng.rand(*X.impl.shape)
+        X.expl[:] = rng.rand(*X.expl.shape)
+        try:
+            Y = fn(X)
+            ok = isinstance(Y, imex_mesh) and np.allclose(np.asarray(Y.impl).ravel(), ref @ np.asarray(X.impl).ravel(), atol=1e-12) and np.allclose(np.asarray(Y.expl).ravel(), ref @ np.asarray(X.expl).ravel(), atol=1e-12)
+            if not ok:
+                rep.violation(f'{PID}/fft-transfer/imex_mesh/{lab}/dim{dim}', f'{name}: {lab} of an imex_mesh returns {type(Y).__name__} / does not act per component', {'task': ['ffttransfer', nf, nc, dim], 'op': lab})
+        except Exception as e:
+            rep.violation(f'{PID}/fft-transfer/imex_mesh/{lab}/dim{dim}', f'{name}: {lab} of an imex_mesh raises {type(e).__name__}: {str(e)[:120]}', {'task': ['ffttransfer', nf, nc, dim], 'op': lab})
+    rep.sample({'case': name, 'free': 'coarse data / coefficients of all modes below the coarse Nyquist frequency in the unit box'}, limit=2)
 
 
 def nocoarse_case(rep):
